@@ -223,9 +223,20 @@ def progress_pattern(loop_ev, nid, inner):
     if not brk or not assigns:
         return None
     vars_ = {a['local'] for a in assigns}
+    loop_roots = {T.unroot(T.root(('havoc', lid, nid))) for lid in vars_}
     for lid in vars_:
         H = T.root(('havoc', lid, nid))
-        if not any(T.mentions(c, T.unroot(H)) for b in brk for c in b['pc']):
+        Hr = T.unroot(H)
+        # an exit that is taken once the counter exceeds a bound that does not itself move with the loop:
+        # a conjunct  bound - H + k <= 0  (coefficient of H negative, no other loop-carried root)
+        bounded = False
+        for b in brk:
+            for c in b['pc']:
+                if isinstance(c, tuple) and c and c[0] == 'le0':
+                    rs = T.lin_roots(c[1])
+                    if rs.get(Hr, 0) < 0 and not any(r != Hr and any(T.mentions(r, o) for o in loop_roots) for r in rs):
+                        bounded = True
+        if not bounded:
             continue
         ok = True
         for a in assigns:
@@ -235,7 +246,8 @@ def progress_pattern(loop_ev, nid, inner):
             if not sites.implies_nonneg(T.sub(T.sub(a['value'], H), T.const(1)), a['pc']):
                 ok = False
         if ok:
-            return f'{assigns[0].get("name")} strictly increases on every iteration that does not return'
+            name = [a.get('name') for a in assigns if a['local'] == lid][0]
+            return f'{name} strictly increases on every iteration that does not leave the loop, and the loop is left once it exceeds a fixed bound'
     return None
 
 
